@@ -223,38 +223,74 @@ def first_param_nil(tree):
 
 
 def dup_under_guard(tree):
-    """some non-trivial subexpression occurs twice in one function body (or the main expression), at least
-    once inside a branch of an `if` — what common-subexpression elimination may bind above the guard."""
+    """finding C02-F5, by its mechanism: the saturation test of cl23+ CSE looks at the conditions enclosing the FIRST
+    instance only and calls an `if` saturated when the expression occurs somewhere in BOTH of its branches.  So: some
+    `if` has the same non-trivial expression in its then-branch and in its else-branch, and at least one of the two
+    occurrences sits under a FURTHER `if` branch inside that branch (a guard the hoisted binding ignores).  Expressions
+    repeated under sibling conditionals ((+ (if A E 0) (if B E 0))) do not match: they are compiled correctly."""
     from progen import text as _text
 
-    def scan(body):
-        occ = {}
+    def collect(t, nested, acc):
+        if t[0] != "list" or not t[1]:
+            return
+        it = t[1]
+        if it[0] in (("sym", "q"), ("sym", "quote")):
+            return
+        k = _text(t)
+        if len(k) > 6:
+            acc.setdefault(k, []).append(nested)
+        if it[0] == ("sym", "if") and len(it) == 4:
+            collect(it[1], nested, acc)
+            collect(it[2], True, acc)
+            collect(it[3], True, acc)
+        else:
+            for x in it:
+                collect(x, nested, acc)
 
-        def walk(t, guarded):
-            if t[0] != "list" or not t[1]:
-                return
-            it = t[1]
-            if it[0] != ("sym", "q") and it[0] != ("sym", "quote"):
-                k = _text(t)
-                if len(k) > 6:
-                    occ.setdefault(k, []).append(guarded)
-            if it[0] == ("sym", "if") and len(it) == 4:
-                walk(it[1], guarded)
-                walk(it[2], True)
-                walk(it[3], True)
-            elif it[0] in (("sym", "q"), ("sym", "quote")):
-                return
-            else:
-                for x in it:
-                    walk(x, guarded)
-        walk(body, False)
-        return any(len(v) >= 2 and any(v) for v in occ.values())
+    def scan(t):
+        if t[0] != "list" or not t[1]:
+            return False
+        it = t[1]
+        if it[0] in (("sym", "q"), ("sym", "quote")):
+            return False
+        if it[0] == ("sym", "if") and len(it) == 4:
+            th, el = {}, {}
+            collect(it[2], False, th)
+            collect(it[3], False, el)
+            for k in th:
+                if k in el and (any(th[k]) or any(el[k])):
+                    return True
+        return any(scan(x) for x in it)
 
     for f in tree[1][2:]:
         if f[0] == "list" and f[1] and f[1][0][0] == "sym" and f[1][0][1] in ("defun", "defun-inline") and len(f[1]) == 4:
             if scan(f[1][3]):
                 return True
     return scan(tree[1][-1])
+
+
+def defconst_let_names(tree):
+    """names bound by let / let* / assign forms inside the bodies of defconst forms (C01-F10)."""
+    out = set()
+
+    def walk(t):
+        if t[0] != "list" or not t[1]:
+            return
+        h = t[1][0]
+        if h[0] == "sym" and h[1] in ("let", "let*") and len(t[1]) >= 2 and t[1][1][0] == "list":
+            for b in t[1][1][1]:
+                if b[0] == "list" and b[1] and b[1][0][0] == "sym":
+                    out.add(b[1][0][1])
+        if h[0] == "sym" and h[1] in ("assign", "assign-inline", "assign-lambda"):
+            for pat in t[1][1:-1:2]:
+                identifiers(pat, out)
+        for x in t[1]:
+            walk(x)
+
+    for f in tree[1] if tree[0] == "list" else []:
+        if f[0] == "list" and len(f[1]) == 3 and f[1][0] == ("sym", "defconst"):
+            walk(f[1][2])
+    return out
 
 
 def classify(pid, p, entry, src_out, impl_out, proghex):
@@ -266,6 +302,9 @@ def classify(pid, p, entry, src_out, impl_out, proghex):
     if strategy_on(d, entry) and impl_out[:1] != "V" and dup_under_guard(p["tree"]):
         # C02-F5: CSE binds an expression repeated under different guards above the guards
         return "compile:cl23-cse-hoists-above-guard"
+    if d in ("cl21", "cl22") and any((n + "_$_").encode().hex() in proghex for n in defconst_let_names(p["tree"])):
+        # C01-F10: the renamed name of a let variable bound inside a defconst body is part of the constant's value
+        return "compile:defconst-let-name-leak"
     if d != "classic" and inline_with_toplevel_capture(p["tree"]):
         return "compile:inline-toplevel-capture"
     if d == "cl21" and has_at_bytes_literal(p["tree"]):
